@@ -26,6 +26,8 @@ REGISTRY = {
     'C18': ('checks.transport', 'c18'),
     'C19': ('checks.ops', 'c19'),
     'C20': ('checks.proc', 'c20'),
+    # beyond the listed properties (evidence under extras/evidence/)
+    'X01': ('checks.extras', 'x01'),
 }
 
 
